@@ -76,3 +76,24 @@ claim("C18",
       "oracle (h versus h|q on the real crate, across restarts and GC).",
       "Restart and crash halves rest on C01/C02 (not yet theorems end to end).",
       "Coq proof (locality of the spec step, transferred by refinement) + checked model/code correspondence + metamorphic oracle")
+claim("C01",
+      "Coq theorems (PropC01.v): the live queues are exactly the replay of the entries the calls logged (ghost log, any history); replaying a SUFFIX of a legal log yields per queue the same next "
+      "position and exactly the records appended by the suffix, so deleted queues never reappear; if every retained record was appended in the suffix and every empty queue is mentioned there "
+      "(what GC's position records ensure), suffix and full log replay to the same observable state; codec and stream round trips. The file-level glue is decided by the checked correspondence on "
+      "histories with restarts at random points (roll-over, GC, delete/re-create, future truncations) and a before/after oracle on the real crate.",
+      "The end-to-end statement through files is not yet one theorem (see evidence.stated_not_proved).",
+      "Coq proof (ghost log + suffix simulation by induction over entries) + checked model/code correspondence + restart oracle")
+claim("C08",
+      "Coq theorems (PropC08.v): for ANY directory content the queues returned by open have strictly increasing positions and consistent payload offsets; whatever decodes as an entry is exactly the "
+      "serialization of that entry; replay inserts exactly the records the entries carry; under CRC-detected damage of any set of frames the entries delivered are a subsequence of those written. "
+      "The unrestricted statement is false (known finding F4: a payload embedding a CRC-valid frame plus a damaged length field). Tied to the code by differential execution on frame-aimed and random "
+      "in-place damage, with an oracle comparing recovered records against every record ever appended.",
+      "Length/type-field damage is covered by the oracle, not by a theorem; CRC-32 collision resistance is outside any proof.",
+      "Coq proof (invariant for all images, codec soundness, damaged-stream theorem) + checked model/code correspondence + damage oracle")
+claim("C09",
+      "Coq theorems (PropC09.v, stream level, every block size and checksum function): damage confined to checksum/payload bytes of one frame of entry x that fails the CRC leaves the reader exactly "
+      "where the intact frame would have; every other entry, earlier or later, same block or not, is read back intact; x is reported as one Corruption; generalised to any number of damaged frames "
+      "(delivered = the intact entries, in order). Through files and open: decided by the checked correspondence plus an oracle that damages every sampled writer frame (layout derived from the I/O trace) "
+      "and requires open to succeed with all records of un-hit appends intact.",
+      "The transfer from streams to files/open rests on FileStream.v (pending) and on replay tolerating one missing entry (checked by the oracle).",
+      "Coq proof (frame/record reader case analysis, induction over the frame layout) + checked model/code correspondence + per-frame damage oracle")
